@@ -23,7 +23,7 @@ static inline std::string key(const char* what) { return vh::cat(what, ".", g_or
 #if ORG < 100
 typedef org<ORG, led::alloc<unsigned char>>::image_t image_t;
 typedef image_t::view_t view_t;
-static const bool homogeneous_bytes = (ORG <= 11);
+static const bool homogeneous_bytes = (ORG <= 11 || ORG == 25 || ORG == 26);
 
 struct srcinfo {
     long w, h;
@@ -133,6 +133,10 @@ struct checker {
         // kth_channel_view (compile-time channel) of the same derived view: must use the view's own x step
         kth_on_derived<0>(d, m);
         kth_on_derived<pt::nch<R>::value - 1>(d, m);
+        ccv_check(d, m, std::integral_constant<bool, (ORG <= 11)>());
+    }
+    // colour conversion exists for the core colour spaces only (not for devicen)
+    template <class W> void ccv_check(W const& d, mapping const& m, std::true_type) {
         // color_converted_view: value of the converted source pixel
         auto ccv = gil::color_converted_view<gil::gray8_pixel_t>(d);
         if (ccv.width() != m.w || ccv.height() != m.h) vh::viol(key("ccv-dims"), vh::cat("word=", m.word()));
@@ -147,6 +151,7 @@ struct checker {
                 }
         second_level_all(d, m, std::integral_constant<bool, (ORG == 1 || ORG == 2 || ORG == 9)>());
     }
+    template <class W> void ccv_check(W const&, mapping const&, std::false_type) {}
     // 8-bit rgb organisations: channel views and converting views as the INNER letter of a word
     template <class W> void second_level_all(W const& d, mapping const& m, std::true_type) {
         if (m.steps.size() > 1) return;
@@ -272,7 +277,7 @@ static void run_shape(long w, long h, size_t align, int depth) {
     // kth_channel_view of a *packed* (byte-aligned, heterogeneous) pixel view is not provided by the
     // library (its dereference adaptor would need a C++ reference to a bit range); only bit-aligned
     // organisations are instantiated here
-    const bool hetero = (ORG >= 16);
+    const bool hetero = (ORG >= 16 && ORG <= 24);
     kth_check<0>(v, s, std::integral_constant<bool, hetero>());
     kth_check<(pt::nch<view_t::value_type>::value > 1 ? 1 : 0)>(v, s, std::integral_constant<bool, hetero>());
     kth_check<pt::nch<view_t::value_type>::value - 1>(v, s, std::integral_constant<bool, hetero>());
